@@ -9,7 +9,6 @@ from __future__ import annotations
 
 import copy
 import io
-import os
 import random
 
 from vf import core
@@ -26,13 +25,12 @@ TREE_DAMAGES = ("drop_version", "version_future", "version_str", "version_float"
                 "unhashable_key", "benign_change")
 DAMAGES = BYTE_DAMAGES + TREE_DAMAGES
 
-# what the reader of the tree under test maps to FlowReadException (model constants; see spec/FlowFile/README.md):
-# the unchanged tree maps ValueError in the inner handler and (ValueError, TypeError, IndexError) in the outer one.
-INNER_MAPPED = frozenset({"ValueError"})
-OUTER_MAPPED = frozenset({"ValueError", "TypeError", "IndexError"})
-if os.environ.get("VERIF_C36_READER") == "repaired":  # findings_proposed/C36.fix.diff applied: model of the repaired reader
-    INNER_MAPPED = frozenset({"*"})
-    OUTER_MAPPED = frozenset({"ValueError", "TypeError", "IndexError", "RecursionError"})
+# what the reader of the tree under test maps to FlowReadException (model constants; see spec/FlowFile/README.md).
+# Since /repo commit 69b4c744d (the repair of finding C36) the inner handler maps every exception class of
+# migrate_flow/from_state and the outer one also maps RecursionError.  The unrepaired reader was
+# INNER = {"ValueError"}, OUTER = {"ValueError", "TypeError", "IndexError"} (mutants/C36/M0 reverts the repair).
+INNER_MAPPED = frozenset({"*"})
+OUTER_MAPPED = frozenset({"ValueError", "TypeError", "IndexError", "RecursionError"})
 
 FLOW_KEYS = ("id", "error", "client_conn", "server_conn", "intercepted", "is_replay", "marked", "metadata", "comment",
              "timestamp_created")
